@@ -187,7 +187,8 @@ GOTRANS = {"gocircuit": "GoCircuit", "gohopener": "GoHOpener", "gohcloser": "GoH
            "gofanrun": "GoFanRun", "gofanfb": "GoFanFb", "gofancirc": "GoFanCirc", "gostream": "GoStream", "gosetcfg": "GoSetCfg",
            "gorollingbuckets": "GoRollingBuckets", "gorollingcounter": "GoRollingCounter", "gomanager": "GoManager", "gosorteddurations": "GoSortedDurations",
            "gorollingbucketsp": "GoRollingBucketsP", "gorollingpercentile": "GoRollingPercentile", "godurationsbucket": "GoDurationsBucket",
-           "goneveropens": "GoNeverOpens", "gonevercloses": "GoNeverCloses", "gohopenercfg": "GoHOpenerCfg", "gohclosercfg": "GoHCloserCfg", "goslocfg": "GoSloCfg"}
+           "goneveropens": "GoNeverOpens", "gonevercloses": "GoNeverCloses", "gohopenercfg": "GoHOpenerCfg", "gohclosercfg": "GoHCloserCfg", "goslocfg": "GoSloCfg",
+           "gorciclear": "GoRCIClear", "gorciadv": "GoRCIAdv", "gorciops": "GoRCIOps"}
 
 def regenerate(name):
     """re-run an extractor on REPO's working tree and (re)write lean/Generated/<file> if it changed.
